@@ -197,7 +197,8 @@ def one_load(ctx, ident, data, path, access, flag0, fault):
             with faults.counting_chunks(fail_at=pos if kind == "chunk" else None) as cstate, faults.failing_diagnostics(fail_at=pos if kind == "diag" else None, warnings_as_errors=(kind == "werror")) as dstate:
                 try:
                     if access == "path":
-                        read_sunvox_file(path)
+                        # str and pathlib.Path spellings alternate
+                        read_sunvox_file(__import__("pathlib").Path(path) if (pos or 0) % 2 else str(path))
                     else:
                         src = data if kind != "truncate" else data[:pos]
                         stream = faults.FaultyFile(BytesIO(src), pos if kind == "read" else None)
